@@ -7,13 +7,20 @@ Ev == Rec[l]
 Is(name) == l <= Len(Rec) /\ Rec[l].e = name /\ l' = l + 1
 TraceInit == l = 1 /\ EInit([n |-> 0, cap |-> 0, q |-> 0, ready |-> FALSE])
 TReset == Is("EqReset") /\ EReset([n |-> Ev.n, cap |-> Ev.cap, q |-> Ev.q, ready |-> FALSE])
+\* a cut point of a long run: the harness writes it only when the device's own books say the
+\* queue is quiescent; inside a trace the specification must agree, at the head of a trace it
+\* is the initial state (every buffer posted, nothing completed, driver ready)
+TWarm  == /\ Is("EqWarmReset")
+          /\ l > 1 => (call = None /\ doneq = <<>> /\ cur = NoCur /\ posted = 0..(Ev.n - 1) /\ ecfg.ready)
+          /\ ecfg' = [n |-> Ev.n, cap |-> Ev.cap, q |-> Ev.q, ready |-> TRUE]
+          /\ posted' = 0..(Ev.n - 1) /\ doneq' = <<>> /\ cur' = NoCur /\ call' = None
 TCall  == Is("Call") /\ Call(Ev)
 TRet   == Is("Ret") /\ Ret(Ev)
 TQAdd  == Is("QAdd") /\ IF Ev.q = ecfg.q THEN Post(Ev.tok) ELSE UNCHANGED evars
 TQPop  == Is("QPop") /\ IF Ev.q = ecfg.q THEN Pop(Ev.tok, Ev.len) ELSE UNCHANGED evars
 TDev   == Is("DevEvent") /\ DevEvent(Ev.tok, Ev.len, Ev.dg)
 TDrop  == Is("Drop") /\ call = None /\ UNCHANGED evars
-TraceNext == TReset \/ TCall \/ TRet \/ TQAdd \/ TQPop \/ TDev \/ TDrop
+TraceNext == TReset \/ TWarm \/ TCall \/ TRet \/ TQAdd \/ TQPop \/ TDev \/ TDrop
 TraceSpec == TraceInit /\ [][TraceNext]_tvars
 TraceAccepted ==
   LET d == TLCGet("stats").diameter IN
